@@ -639,6 +639,113 @@ def flag_focus(draw, top: dict, bottom: dict, established: bool = True):
     return top, bottom
 
 
+def port_exprs(ivs, platform: str):
+    """Every one-operator spelling whose port set is exactly the interval list `ivs` (within 1..65535)."""
+    ivs = [tuple(x) for x in ivs]
+    out = []
+    if not ivs:
+        return out
+    if len(ivs) == 1:
+        lo, hi = ivs[0]
+        out.append({"op": "range", "v": [lo, hi], "nm": [-1, -1]})
+        if lo != hi:
+            out.append({"op": "range", "v": [hi, lo], "nm": [-1, -1]})
+        if lo == 1 and hi < 65535:
+            out.append({"op": "lt", "v": [hi + 1], "nm": [-1]})
+        if hi == 65535 and lo > 1:
+            out.append({"op": "gt", "v": [lo - 1], "nm": [-1]})
+    gaps = [(ivs[i][1] + 1, ivs[i + 1][0] - 1) for i in range(len(ivs) - 1)]
+    holes = []
+    if ivs[0][0] > 1:
+        gaps = [(1, ivs[0][0] - 1)] + gaps
+    if ivs[-1][1] < 65535:
+        gaps = gaps + [(ivs[-1][1] + 1, 65535)]
+    nholes = sum(b - a + 1 for a, b in gaps)
+    limit = 10 if platform == "ios" else 1
+    if 1 <= nholes <= limit:
+        holes = [x for a, b in gaps for x in range(a, b + 1)]
+        out.append({"op": "neq", "v": holes, "nm": [-1] * len(holes)})
+    nports = sum(b - a + 1 for a, b in ivs)
+    if 1 <= nports <= limit:
+        vals = [x for a, b in ivs for x in range(a, b + 1)]
+        out.append({"op": "eq", "v": vals, "nm": [-1] * len(vals)})
+    return out
+
+
+def _ivs_minus(ivs, x):
+    out = []
+    for a, b in ivs:
+        if a <= x <= b:
+            if a <= x - 1:
+                out.append((a, x - 1))
+            if x + 1 <= b:
+                out.append((x + 1, b))
+        else:
+            out.append((a, b))
+    return out
+
+
+def _ivs_plus(ivs, x):
+    pts = sorted(list(ivs) + [(x, x)])
+    out = []
+    for a, b in pts:
+        if out and a <= out[-1][1] + 1:
+            out[-1] = (out[-1][0], max(out[-1][1], b))
+        else:
+            out.append((a, b))
+    return out
+
+
+@st.composite
+def port_focus(draw, top: dict, bottom: dict, platform: str):
+    """Turn a derived pair into a tcp/udp pair that differs in one port condition only, where the two port sets
+    are equal, or differ by exactly one port at an end of a run (often an end of the port space), in any
+    spelling: range 1024 65535 under lt 65535, neq 7 under range 1 65535, gt 1 under neq 1 ..."""
+    top, bottom = dict(top), dict(bottom)
+    proto = draw(st.sampled_from([6, 17]))
+    for rec in (top, bottom):
+        rec["proto"], rec["pn"], rec["flags"] = proto, 0, []
+    bottom["action"] = top["action"]
+    bottom["src"], bottom["dst"] = dict(top["src"]), dict(top["dst"])
+    side = draw(st.sampled_from(["sp", "dp"]))
+    other = "dp" if side == "sp" else "sp"
+    bottom[other] = top[other] = draw(st.one_of(st.none(), port_st(platform, None, False, False, False)))
+    edge = st.sampled_from([1, 2, 3, 65533, 65534, 65535])
+    val = st.one_of(edge, edge, st.integers(1, 65535), st.sampled_from([22, 80, 443, 1024]))
+    shape = draw(st.sampled_from(["neq", "range", "range", "lt", "gt", "eq", "full"]))
+    if shape == "neq":
+        ivs = R.port_set("neq", [draw(val)])
+    elif shape == "range":
+        ivs = R.port_set("range", [draw(val), draw(st.one_of(val, edge))])
+    elif shape == "lt":
+        ivs = R.port_set("lt", [max(2, draw(val))])
+    elif shape == "gt":
+        ivs = R.port_set("gt", [min(65534, draw(val))])
+    elif shape == "eq":
+        ivs = R.port_set("eq", [draw(val)])
+    else:
+        ivs = ((1, 65535),)
+    ivs = [tuple(x) for x in ivs]
+    ends = sorted({ivs[0][0], ivs[-1][1]} | {x for a, b in ivs for x in (a, b)})
+    how = draw(st.sampled_from(["same", "minus", "minus", "plus"]))
+    ivs2 = list(ivs)
+    if how == "minus":
+        ivs2 = _ivs_minus(ivs, draw(st.sampled_from(ends)))
+    elif how == "plus":
+        outside = [x for x in {ivs[0][0] - 1, ivs[-1][1] + 1} | {a - 1 for a, _ in ivs} | {b + 1 for _, b in ivs}
+                   if 1 <= x <= 65535 and not any(a <= x <= b for a, b in ivs)]
+        if outside:
+            ivs2 = _ivs_plus(ivs, draw(st.sampled_from(sorted(outside))))
+    e1, e2 = port_exprs(ivs, platform), port_exprs(ivs2, platform)
+    if not e1 or not e2:
+        return top, bottom
+    p1, p2 = draw(st.sampled_from(e1)), draw(st.sampled_from(e2))
+    if draw(st.booleans()):
+        p1, p2 = p2, p1
+    top[side], bottom[side] = p1, p2
+    return top, bottom
+
+
 def label_addr(a: dict) -> str:
     if a["k"] == "wild":
         return "wild-nc" if not R.is_contiguous(a["w"]) else "wild-contig"
